@@ -330,3 +330,19 @@ Proof.
     + intros i Hi. apply start_of_unwrap. exact Hw.
     + eexists. split; [reflexivity|]. split; [exact HL|exact HO].
 Qed.
+
+(* a perfect linear window: every residual statistic is 0 *)
+Lemma perfect_resid_stats k mp c d (P : list (R * R)) :
+  detB P <> 0 -> Forall (fun p => fst p = c + d * snd p) P -> (mp <= length P)%nat ->
+  (k = RSkew -> (3 <= length P)%nat) ->
+  resid_stat_x k mp P = Some 0.
+Proof.
+  intros HD HL Hmp Hk. unfold resid_stat_x.
+  replace (mp <=? length P)%nat with true by (symmetry; apply Nat.leb_le; exact Hmp).
+  destruct (Req_EM_T (detB P) 0) as [E|_]; [contradiction|].
+  destruct (perfect_fit c d P HD HL) as (_ & _ & _ & HZ).
+  pose proof (det_nonzero_two P HD) as H2.
+  destruct (zeros_stats _ HZ ltac:(rewrite resids_length; exact H2)) as (Hm & Hs & Hsk).
+  destruct k; cbn [rstat_spec]; [exact Hm|exact Hs|].
+  apply Hsk. rewrite resids_length. apply Hk. reflexivity.
+Qed.
